@@ -18,7 +18,8 @@
                                   AddInstruction* of instructions that encode: encodes, and is framed when < 64 KiB
     groupMod_history_sent         NewGroupMod(), any command / type / id, AddBucket* of buckets built by NewBucket + AddAction*
     packetOut_history_sent        NewPacketOut(), AddAction*, SetData(bytes)
-    hello_history_sent            NewHello(4) with any element list
+    hello_history_sent            NewHello(4) with any element list; `hello_history_encodes_sent`: unconditional (the encoder
+                                  SUCCEEDS when the elements encode and 8 + Σ Len() does not wrap)
     bundleAdd_flowMod_history_sent NewBundleAdd around a flow-mod built by such a history
   No history yielding an unframed message was found.
 -/
@@ -265,6 +266,25 @@ theorem hello_history_sent (xid : Nat) (elems : List V) (bs : Bytes) (v' : V)
     (hm : Hello.marshalM (.obj "Hello" [newHeader Gen.openflow13.VERSION xid, .list elems]) = .ok (bs, v')) :
     Framed Gen.openflow13.VERSION Gen.openflow13.Type_Hello (n32 xid).toNat bs v' ∧ bs.length < 65536 :=
   C01b.hello_sent _ _ ⟨.num 8, rfl⟩ bs v' hm
+
+/-- HELLO, unconditional: NewHello(4) with any transaction id and ANY list of elements that encode (Len() stable) and
+    whose uint16 total 8 + Σ Len() covers their encodings (no wrap-around): MarshalBinary() SUCCEEDS and the message is
+    framed — version 4, OFPT_HELLO, length = bytes produced < 64 KiB, the transaction id -/
+theorem hello_history_encodes_sent (xid : Nat) (elems : List V) (ls : List UInt16) (ebs : List Bytes) (es' : List V)
+    (hl : mapM2 HelloElem.lenM elems = .ok (ls, elems)) (hm : mapM2 HelloElem.marshalM elems = .ok (ebs, es'))
+    (hfit : 8 + ebs.flatten.length ≤ (8 + sum16 ls).toNat) :
+    ∃ bs v', Hello.marshalM (.obj "Hello" [newHeader Gen.openflow13.VERSION xid, .list elems]) = .ok (bs, v') ∧
+      Framed Gen.openflow13.VERSION Gen.openflow13.Type_Hello (n32 xid).toNat bs v' ∧ bs.length < 65536 := by
+  obtain ⟨bs, v', h⟩ := hello_encodes (n8 Gen.openflow13.VERSION).toNat 0 (n32 xid).toNat (.num 8) elems ls ebs es' hl hm hfit
+  have h' : Hello.marshalM (.obj "Hello" [newHeader Gen.openflow13.VERSION xid, .list elems]) = .ok (bs, v') := h
+  exact ⟨bs, v', h', hello_history_sent xid elems bs v' h'⟩
+
+/-- the hypotheses hold for what NewHello() itself puts in: one version-bitmap element (8 bytes) — and for two of them -/
+example : mapM2 HelloElem.lenM [HelloElemVersionBitmap.new, HelloElemVersionBitmap.new] =
+      .ok ([8, 8], [HelloElemVersionBitmap.new, HelloElemVersionBitmap.new]) ∧
+    (∃ ebs es', mapM2 HelloElem.marshalM [HelloElemVersionBitmap.new, HelloElemVersionBitmap.new] = .ok (ebs, es') ∧
+      8 + ebs.flatten.length ≤ (8 + sum16 [8, 8]).toNat) :=
+  ⟨rfl, _, _, rfl, by decide⟩
 
 /-- BUNDLE-ADD around a flow-mod built by ANY history (`flowMod_history_sent`: the result is a FlowMod value): when
     MarshalBinary() of the experimenter message returns, it is framed (version 4, OFPT_EXPERIMENTER, length = bytes
